@@ -19,6 +19,7 @@ import math
 
 from vlib.common import *
 from vlib import pmcases
+from vlib import auxprops
 
 TOL = 1e-3
 WALKOFF_TOL = 2e-4             # library walk-off angle vs independent one, in relative units of the expected peak
@@ -264,11 +265,13 @@ def run(ctx):
     pmcases.tag_inputs(ctx)
     if getattr(ctx, "replay", None):
         return pmcases.replay(ctx, binp, oracle, timeout=2400)
-    msgs, spans = regen(ctx, ["pm_integrand", "pm_simpson", "pmsimple"])
+    msgs, spans = regen(ctx, ["pm_integrand", "pm_simpson"])
     ctx.cov["translated_spans"] = {k: v for k, v in spans.items() if "coincidences" in v["file"] or "integration" in v["file"]}
     for m in msgs:
-        ctx.proof_failures.append(("Gen/PMSimpson.v" if "pm_simpson" in m else "Gen/PMSimple.v" if "[generator pmsimple]" in m else "Gen/PMIntegrand.v", "translator", m))
+        ctx.proof_failures.append(("Gen/PMSimpson.v" if "pm_simpson" in m else "Gen/PMIntegrand.v", "translator", m))
     proved = (not msgs) and prove(ctx, "C05", extra_targets=["Proofs/PMCaseTac.vo"])
+    # auxiliary composition (Props/C05_aux.v): the crate's own sinc / Gaussian approximations against this property's limits
+    auxprops.prove_aux(ctx, "C05", ["pmsimple"])
     quick = ctx.tier == "quick"
     n_pw, n_pt, n_other = (120, 4, 10) if quick else (1500, 16, 60)
     args = ["c05", ctx.seed, n_pw, n_pt, n_other]
